@@ -459,7 +459,7 @@ class Exec(Interp):
         if cn in ("list", "tuple") and inv is None:
             seq = Val.items(sv) if cn == "list" else Val.titems(sv)
             n = z3.simplify(z3.Length(seq))
-            if z3.is_int_value(n) and n.as_long() <= 8:
+            if z3.is_int_value(n) and n.as_long() <= 24:
                 # concrete short sequence: unrolled (no bound is involved, the length is known)
                 broke = False
                 for k in range(n.as_long()):
